@@ -31,6 +31,7 @@ enum Fault {
     LongCoefZero(usize, usize),
     MvdInvalid(usize),
     NoReferenceForP,
+    SizeMismatchP,
     Unimplemented,
 }
 
@@ -41,7 +42,7 @@ impl Fault {
             Fault::TruncateAt(_) => "truncation",
             Fault::McbpcInvalid(_) | Fault::CbpyInvalid(_) | Fault::MvdInvalid(_) => "macroblock-header",
             Fault::IntraDcInvalid(..) | Fault::ShortCoefInvalid(..) | Fault::LongCoefZero(..) => "block-data",
-            Fault::NoReferenceForP => "prediction",
+            Fault::NoReferenceForP | Fault::SizeMismatchP => "prediction",
         }
     }
 }
@@ -140,7 +141,7 @@ fn make_failing(rng: &mut Rng, cfg: &PicCfg, have_ref: bool) -> (Vec<u8>, Fault)
                 pic.mbs[m] = SymMb::Coded { kind: MbKind::Inter, dquant: 1, mvd: [[99, 0], [0; 2], [0; 2], [0; 2]], blocks: std::array::from_fn(|_| SymBlock::default()) };
             }
         }
-        Fault::NoReferenceForP => {}
+        Fault::NoReferenceForP | Fault::SizeMismatchP => {}
     }
     let _ = sorenson;
     (pic.encode(), fault)
@@ -177,6 +178,16 @@ pub fn case(ctx: &Ctx, shard: usize, index: u64, rep: &mut Report) {
     cfg.tr = cfg.tr.wrapping_add(1);
     let (x, fault) = if !have_ref && rng.chance(1, 6) {
         (vector_field_picture(&mut rng, &cfg, false).encode(), Fault::NoReferenceForP)
+    } else if have_ref && rng.chance(1, 8) {
+        // a complete, well-formed predicted picture of another size: fails only in the prediction
+        // step, after every macroblock has been parsed
+        let mut c2 = cfg.clone();
+        if rng.chance(1, 2) {
+            c2.w += if sorenson { 1 + rng.below(20) as usize } else { 4 * (1 + rng.below(5) as usize) };
+        } else {
+            c2.h += if sorenson { 1 + rng.below(20) as usize } else { 4 * (1 + rng.below(5) as usize) };
+        }
+        (vector_field_picture(&mut rng, &c2, false).encode(), Fault::SizeMismatchP)
     } else {
         make_failing(&mut rng, &cfg, have_ref)
     };
